@@ -65,6 +65,7 @@ from pynetdicom.pdu_primitives import (
     SOPClassCommonExtendedNegotiation,
     SCP_SCU_RoleSelectionNegotiation,
     A_ASSOCIATE,
+    A_RELEASE,
     _UI,
     _UITypes,
 )
@@ -515,9 +516,17 @@ class Association(threading.Thread):
         elif self.acse.is_aborted("a-p-abort"):
             # Evt17 occurred while in Sta6
             LOGGER.error("Connection closed while waiting for DIMSE message")
+        elif self._is_release_pending():
+            # Let the main reactor loop answer the peer's A-RELEASE request
+            pass
         elif self.is_established:
             LOGGER.error("DIMSE timeout reached while waiting for message response")
             self.abort()
+
+    def _is_release_pending(self) -> bool:
+        """Return ``True`` if the peer's A-RELEASE request is waiting to be answered."""
+        primitive = self.dul.peek_next_pdu()
+        return isinstance(primitive, A_RELEASE) and primitive.result is None
 
     @property
     def is_acceptor(self) -> bool:
